@@ -259,11 +259,12 @@ def l1_reentrancy(P, E, H, UR=None, c01_holds=True):
                 if c01_holds and _l1_terminal_exempt(P, E, H, b, conflicts):
                     continue
                 via = "across " + ("operator function" if atom(c) == "fw_call" else "emission")
-                if (b.nid, cname, via) in L1_EXEMPT:
+                sname = H.stable_name(b)
+                if (sname, cname, via) in L1_EXEMPT:
                     continue
-                if any(v.key == (b.nid, cname, via) for v in r.violations):
+                if any(v.key == (sname, cname, via) for v in r.violations):
                     continue
-                r.violate((b.nid, cname, via),
+                r.violate((sname, cname, via),
                           "%s guard of `%s` is held across %s, which reaches user code; re-entering the library "
                           "from that code reaches a conflicting acquisition of the same cell in %s: the thread "
                           "blocks on a lock it holds itself"
@@ -287,7 +288,7 @@ L1_EXEMPT = {
     # the count cannot reach 0 during connect; the demonstration attempt
     # (from_iter(0..3).replay().observable().take(1)) returns.  ref_count (plain Subject) is NOT
     # exempt: there the same shape deadlocks.
-    ("operators::replay::Replay::set_ref_count::{closure#1}", "upvar:subscription", "across emission"),
+    ("operators::replay::Replay::set_ref_count/COUNT_UP", "upvar:subscription", "across emission"),
 }
 
 
